@@ -48,7 +48,7 @@ class Info:
         self.name = e.names[0]
         self.is_table = e.is_table
         self.view = e.role[0] == "view"
-        self.weird = False
+        self.weird = "row" in e.tags      # held Row objects only observe (reads, drop)
         o = e.obj
         try:
             if e.is_table:
@@ -75,6 +75,8 @@ class Info:
                 self.names = None
                 self.colkinds = None
                 if any(isinstance(x, S.Vector) for x in self.vals):
+                    self.weird = True
+                if "row" in e.tags:
                     self.weird = True
         except Exception:
             self.weird = True
@@ -158,7 +160,14 @@ class Gen:
             fn = getattr(self, "g_" + k, None)
             if fn is None:
                 continue
-            rec = fn(world, infos)
+            try:
+                rec = fn(world, infos)
+            except TypeError:
+                # a live object holds something the trace format cannot express (e.g. an
+                # exotic element produced by earlier arithmetic): this operation kind is
+                # not applicable now; deterministic, so replay is unaffected
+                self.inapplicable = getattr(self, "inapplicable", 0) + 1
+                rec = None
             if rec is not None:
                 self.last_kind = k
                 return rec
@@ -215,6 +224,19 @@ class Gen:
         kind = self.kind()
         n = self.rand_len()
         return {"op": "input_list", "inp": self.new_inp(), "vals": V.enc_list(self.vals_of(kind, n))}
+
+    def g_vec_of_cols(self, world, infos):
+        c = self.pick([i for i in infos if not i.is_table and not i.weird and i.n > 0])
+        if not c:
+            return None
+        rec = {"op": "vec_of_cols", "out": self.new_h(), "h": c.name}
+        self.touch(rec["out"], c.name)
+        return rec
+
+    def g_vnew(self, world, infos):
+        r = self.rng
+        d = None if r.random() < 0.3 else V.pick_value(r, self.kind(), 0.0)
+        return {"op": "vnew", "out": self.new_h(), "default": V.enc(d), "n": r.choice([0, 1, 2, 3]), "typesafe": r.random() < 0.5}
 
     def g_drop_input(self, world, infos):
         if not world.inputs:
@@ -385,6 +407,17 @@ class Gen:
         self.touch(rec["out"], c.name)
         return rec
 
+    def g_row(self, world, infos):
+        """t[i]: a Row the program keeps holding"""
+        r = self.rng
+        c = self.pick([i for i in infos if i.is_table and not i.weird and i.ncols > 0 and i.n > 0])
+        if not c:
+            return None
+        i = r.randrange(c.n)
+        rec = {"op": "getitem", "out": self.new_h(), "h": c.name, "key": {"k": "int", "i": i if r.random() < 0.8 else i - c.n}}
+        self.touch(c.name)
+        return rec
+
     def g_tsel(self, world, infos):
         r = self.rng
         c = self.pick([i for i in infos if i.is_table and not i.weird and i.ncols > 0])
@@ -484,7 +517,7 @@ class Gen:
                 other = {"k": "h", "h": r.choice(vecs).name}
             elif t < 0.8:
                 k2 = kd if r.random() < 0.7 else self.kind()
-                other = {"k": "list", "v": V.enc_list(self.vals_of(k2, r.randint(0, 3)))}
+                other = {"k": r.choice(["list", "list", "tuple", "gen"]), "v": V.enc_list(self.vals_of(k2, r.randint(0, 3)))}
             else:
                 other = {"k": "s", "v": V.enc(V.pick_value(r, kd))}
             rec = {"op": "lshift", "out": self.new_h(), "h": c.name, "other": other}
@@ -628,7 +661,7 @@ class Gen:
             return {"k": "str", "v": nm}
         col = list(c.e.obj.cols()[j])
         try:
-            if r.random() < 0.5:
+            if r.random() < 0.5 or not (nm is None or isinstance(nm, str)):
                 return {"k": "col", "j": j}
             return {"k": "vec", "v": V.enc_list(col), "name": V.enc(nm)}
         except TypeError:
@@ -680,7 +713,7 @@ class Gen:
         if not c:
             return None
         keyable = [j for j in range(c.ncols) if c.colkinds[j] in ("int", "str", "bool", "date")]
-        num = [j for j in range(c.ncols) if c.colkinds[j] in ("int", "float")]
+        num = [j for j in range(c.ncols) if c.colkinds[j] in ("int", "float", "complex", "bool")]
         if not keyable:
             return None
         rec = {"op": "agg", "out": self.new_h(), "h": c.name, "fn": r.choice(self.k.get("agg_fns", ["aggregate", "window"])),
@@ -912,7 +945,7 @@ class Gen:
             val = {"k": r.choice(["list", "tuple"]), "v": V.enc_list(colvals[0])}
             shape = "column"
         elif r.random() < 0.3:
-            val = {"k": "tab", "cols": [[V.enc(c.names[j]), V.enc_list(cv)] for j, cv in zip(cpos, colvals)]}
+            val = {"k": "tab", "cols": [[V.enc(c.names[j] if isinstance(c.names[j], str) else None), V.enc_list(cv)] for j, cv in zip(cpos, colvals)]}
             shape = "table"
         else:
             inner = [{"k": r.choice(["list", "tuple", "vec"]), "v": V.enc_list(cv)} for cv in colvals]
@@ -960,7 +993,10 @@ class Gen:
         bad = self.chance("p_ragged", 0.0)
         m = c.n if not bad else max(0, c.n + r.choice([-1, 1]))
         vecs = [i for i in infos if not i.is_table and not i.weird and i.n == m]
-        if vecs and r.random() < self.k.get("p_donor", 0.6):
+        held = [k for k in sorted(world.inputs) if isinstance(world.inputs[k], (list, tuple)) and len(world.inputs[k]) == m]
+        if held and r.random() < 0.35:
+            val = {"k": "inp", "inp": r.choice(held)}       # a plain list / tuple the program keeps holding
+        elif vecs and r.random() < self.k.get("p_donor", 0.6):
             d = self.pick(vecs)
             val = {"k": "h", "h": d.name}
         else:
@@ -990,7 +1026,8 @@ class Gen:
         c = self.pick([i for i in infos if i.is_table and not i.weird and i.ncols > 0])
         if not c:
             return None
-        old = r.choice(c.names) if r.random() < 0.9 else "nope"
+        plain = [n for n in c.names if n is None or isinstance(n, str)]
+        old = r.choice(plain) if (plain and r.random() < 0.9) else "nope"
         rec = {"op": "rencol", "t": c.name, "old": V.enc(old), "new": V.enc(self.rand_name(False))}
         self.touch(c.name)
         return rec
@@ -1001,7 +1038,8 @@ class Gen:
         if not c:
             return None
         k = r.randint(1, min(3, c.ncols))
-        olds = [r.choice(c.names) for _ in range(k)]
+        plain = [n for n in c.names if n is None or isinstance(n, str)] or ["nope"]
+        olds = [r.choice(plain) for _ in range(k)]
         news = [self.rand_name(False) for _ in range(k)]
         if r.random() < 0.15:
             olds[r.randrange(k)] = "nope"
